@@ -21,6 +21,10 @@ QUICK_MENU = [
     (3, []),
     (4, ["rdv", "rdv", "rdv", "rdv", "instant", "long", "rdv", "rdv", "rdv", "rdv"]),
     (8, ["rdv"] * 8 + ["instant", "long", "instant", "instant"]),
+    # bursts far longer than the pool is wide (a bounded queue must not shed work): 4N and more tasks
+    (1, ["instant"] * 24),
+    (5, ["rdv"] * 5 + ["instant"] * 10 + ["rdv"] * 5 + ["instant"] * 5),
+    (6, ["instant"] * 40),
 ]
 BIG = (8, ["rdv"] * 8 + ["instant", "long", "instant", "instant"] + ["rdv"] * 8 + ["instant"] * 12)   # 4N tasks: thorough tier
 
